@@ -36,6 +36,17 @@ def main() -> int:
     except ModuleNotFoundError as e:
         print(f"internal error: no check module for {prop}: {e}", file=sys.stderr)
         return 2
+    # A check must end.  If a code change makes the harness spin (a search that no longer closes, a buffer that grows for
+    # ever) it is stopped here and reported as an internal error (exit 2) rather than hanging its caller.
+    import signal
+
+    limit = int(os.environ.get("VERIF_TIME_LIMIT_S", "1800" if args.tier == "quick" else "28800"))
+
+    def _too_long(signum, frame):
+        raise TimeoutError(f"check {prop} exceeded its time limit of {limit} s")
+
+    signal.signal(signal.SIGALRM, _too_long)
+    signal.alarm(limit)
     try:
         if args.replay:
             with open(args.replay) as f:
